@@ -69,7 +69,15 @@ type hostileState struct {
 	// honours a throttle in full, with no cap (documented: KIP-219, "an
 	// absurd throttle is equivalent to a slow broker"), so time spent
 	// throttled is not time "beyond the configured time-outs"
-	throttle map[string][][2]time.Duration
+	throttle map[string][]throttleWin
+}
+
+// throttleWin: a throttle belongs to the connection it arrived on. When that
+// connection is reset while the client has a read outstanding on it, the
+// client knows it is gone and has nothing left to wait for.
+type throttleWin struct {
+	from, to time.Duration
+	conn     *Conn
 }
 
 func (hs *hostileState) noteThrottle(c *Conn, key, ver int16, frame []byte) {
@@ -85,7 +93,7 @@ func (hs *hostileState) noteThrottle(c *Conn, key, ver int16, frame []byte) {
 		k := fmt.Sprintf("%s|%d", c.Client, c.Broker)
 		now := hs.s.Now()
 		hs.mu.Lock()
-		hs.throttle[k] = append(hs.throttle[k], [2]time.Duration{now, now + time.Duration(ms)*time.Millisecond})
+		hs.throttle[k] = append(hs.throttle[k], throttleWin{now, now + time.Duration(ms)*time.Millisecond, c})
 		hs.mu.Unlock()
 		hs.s.Count("throttles_seen", 1)
 	}
@@ -103,7 +111,13 @@ func (hs *hostileState) throttled(client string, broker int64, from, to time.Dur
 			continue
 		}
 		for _, w := range ws {
-			a, b := w[0], w[1]
+			a, b := w.from, w.to
+			if at := w.conn.resetAt.Load(); at != 0 {
+				// (plus two seconds for the client to notice and reissue)
+				if end := time.Unix(0, at).Sub(hs.s.start) + 2*time.Second; end < b {
+					b = end
+				}
+			}
 			if a < from {
 				a = from
 			}
@@ -319,7 +333,7 @@ func scenHostile(s *Sim) {
 	p := s.P
 	nb := int(p.Knob("nbroker", 2))
 	s.StartCluster(nb, kfake.SeedTopics(2, "t0"))
-	hs := &hostileState{s: s, taint: map[string]time.Duration{}, held: map[*Conn][]byte{}, throttle: map[string][][2]time.Duration{}}
+	hs := &hostileState{s: s, taint: map[string]time.Duration{}, held: map[*Conn][]byte{}, throttle: map[string][]throttleWin{}}
 	s.Mutate = func(c *Conn, ri *reqInfo, data []byte) ([][]byte, bool) {
 		out, kill := hs.mutate(c, ri, data)
 		for _, f := range out {
@@ -336,7 +350,7 @@ func scenHostile(s *Sim) {
 			if ms, _ := tr.Throttle(); ms > 0 {
 				k := fmt.Sprintf("%s|%d", r.Conn.Client, r.Conn.Broker)
 				hs.mu.Lock()
-				hs.throttle[k] = append(hs.throttle[k], [2]time.Duration{s.Now(), s.Now() + time.Duration(ms)*time.Millisecond})
+				hs.throttle[k] = append(hs.throttle[k], throttleWin{s.Now(), s.Now() + time.Duration(ms)*time.Millisecond, r.Conn})
 				hs.mu.Unlock()
 				s.Count("throttles_seen", 1)
 			}
